@@ -363,6 +363,11 @@ def normalize(model):
             if not thread_flags(f):
                 break
         propagate_copies(f)
+        # a pointer that was only copied on (T **ap = tgtp) is an out-pointer again once the copy is propagated
+        for _ in range(3):
+            if not eliminate_out_pointers(f):
+                break
+            propagate_copies(f)
         for _ in range(4):
             if not fuse_repeated_tests(f):
                 break
@@ -870,8 +875,41 @@ def fold_pointer_null_tests(f):
     return changed
 
 
+def collapse_pointer_aliases(f):
+    """`T *p = q;` where p and q are copies of helper parameters (pointers) and neither is ever assigned: p is q."""
+    assigned = set()
+    for y in walk(f.body):
+        t_ = None
+        if y["kind"] in ("BinaryOperator", "CompoundAssignOperator") and y.get("opcode", "").endswith("=") and \
+                y.get("opcode") not in ("==", "!=", "<=", ">="):
+            t_ = strip(kids(y)[0], casts=True)
+        elif y["kind"] == "UnaryOperator" and y.get("opcode") in ("++", "--", "&"):
+            t_ = strip(kids(y)[0], casts=True)
+        if t_ is not None and t_["kind"] == "DeclRefExpr":
+            assigned.add(t_["ref"].get("id"))
+    changed = False
+    for x in list(walk(f.body)):
+        if x["kind"] != "VarDecl" or not kids(x) or not str(x.get("id", "")).startswith("inl") or "*" not in (x.get("type") or ""):
+            continue
+        ini = strip(kids(x)[0], casts=True)
+        if ini["kind"] != "DeclRefExpr" or not str(ini["ref"].get("id", "")).startswith("inl"):
+            continue
+        if x["id"] in assigned or ini["ref"]["id"] in assigned or x["id"] == ini["ref"]["id"]:
+            continue
+        for y in walk(f.body):
+            if y["kind"] == "DeclRefExpr" and y["ref"].get("id") == x["id"]:
+                y["ref"] = dict(ini["ref"])
+                changed = True
+        # the alias declaration itself is dead now
+        for b_ in walk(f.body):
+            if b_["kind"] == "CompoundStmt" and b_.get("inner"):
+                b_["inner"] = [c for c in b_["inner"] if not (c["kind"] == "DeclStmt" and len(kids(c)) == 1 and kids(c)[0] is x)]
+    return changed
+
+
 def eliminate_out_pointers(f):
     """`T *p = &x;` where p is only ever used as `*p` : replace `*p` by x and drop p."""
+    collapse_pointer_aliases(f)
     changed = False
     decls = {}
     for x in walk(f.body):
@@ -881,6 +919,26 @@ def eliminate_out_pointers(f):
                 tgt = strip(kids(ini)[0], casts=True)
                 if tgt["kind"] == "DeclRefExpr":
                     decls[x["id"]] = tgt
+                elif tgt["kind"] == "MemberExpr":
+                    # &(q->f) / &(s.f): usable as 'q->f' as long as q itself is never assigned in the function
+                    root = tgt
+                    while root["kind"] == "MemberExpr":
+                        root = strip(kids(root)[0], casts=True)
+                    if root["kind"] == "DeclRefExpr":
+                        rid_ = root["ref"].get("id")
+                        assigned = False
+                        for y in walk(f.body):
+                            if y["kind"] in ("BinaryOperator", "CompoundAssignOperator") and y.get("opcode", "").endswith("=") and \
+                                    y.get("opcode") not in ("==", "!=", "<=", ">="):
+                                t_ = strip(kids(y)[0], casts=True)
+                                if t_["kind"] == "DeclRefExpr" and t_["ref"].get("id") == rid_:
+                                    assigned = True
+                            if y["kind"] == "UnaryOperator" and y.get("opcode") in ("++", "--"):
+                                t_ = strip(kids(y)[0], casts=True)
+                                if t_["kind"] == "DeclRefExpr" and t_["ref"].get("id") == rid_:
+                                    assigned = True
+                        if not assigned:
+                            decls[x["id"]] = tgt
     for pid, tgt in decls.items():
         derefs, others = [], 0
         arrows = []
@@ -906,7 +964,9 @@ def eliminate_out_pointers(f):
                     if u["kind"] == "DeclRefExpr" and u["ref"].get("id") == pid and v["kind"] == "IntegerLiteral":
                         ignore.add(id(u))
         nrefs = sum(1 for x in walk(f.body) if x["kind"] == "DeclRefExpr" and x["ref"].get("id") == pid and id(x) not in ignore)
-        if nrefs != len(derefs) + len(arrows) or not (derefs or arrows):
+        counted = sum(1 for d_ in derefs if not any(id(y) in ignore for y in walk(d_) if y["kind"] == "DeclRefExpr" and y["ref"].get("id") == pid)) + \
+            sum(1 for a_ in arrows if not any(id(y) in ignore for y in walk(a_) if y["kind"] == "DeclRefExpr" and y["ref"].get("id") == pid))
+        if nrefs != counted or not (derefs or arrows):
             continue
         for d in derefs:
             for k_ in list(d.keys()):
